@@ -110,6 +110,8 @@ func credentialOfParam(c *Ctx, fn *ssa.Function, idx int, depth int) string {
 }
 
 func runC10(c *Ctx, r *Report) {
+	r.Rule("C10/error-classes", "each failure site named by the property wraps the sentinel the property names (timeout / auth / connection / privilege / NETCONF / operation / platform error)", 5)
+	checkErrorClasses(c, r, "C10")
 	r.Rule("C10/credential-prompt", "each credential is written only on the true edge of a match of its own prompt pattern, redacted", 4)
 	r.Rule("C10/at-most-twice", "each credential write is dominated by the false edge of count > 2 for a counter incremented once per matched prompt; the true edge returns ErrAuthError", 4)
 	r.Rule("C10/success-first", "a shell prompt match returns success with the bytes read and is tested before any credential prompt", 2)
